@@ -52,6 +52,20 @@ def run(ctx):
         obs_src = obs_src[: obs_src.rindex("main()")] + "probe_%d + '#' + main()" % i
         observer = {"src": obs_src, "mode": "steps" if i % 2 else "eval"}
         cases.append((victim, observer, names, is_mod))
+    # a DEPENDENCY whose body throws after declaring bindings (directly imported, or imported by a dependency); the observer is a
+    # script, or a script after one more successful module run
+    for i in range(12 if ctx.tier == "quick" else 120):
+        names = ["depSecret%d" % i, "depHelper%d" % i, "depLate%d" % i]
+        failing = ("const %s = %d; function %s() { return 1; }\nexport const shown = %s;\n%s\nconst %s = 2;"
+                   % (names[0], i, names[1], names[0], rng.choice(["throw new RangeError('dep body failed');", "undefinedInDep%d();" % i, "null.x;"]), names[2]))
+        if i % 2:
+            mods = {"/m/dep": "import { shown } from './inner/bad'; export const viaMid = shown;", "/m/inner/bad": failing}
+        else:
+            mods = {"/m/dep": failing}
+        v = {"src": "import * as d from './dep'; export const got = Object.keys(d).length;\ngot", "mode": "steps", "trace": True, "path": "/m/main%d" % i, "mods": mods}
+        probe = "[" + ", ".join("typeof %s" % x for x in names + ["shown", "got", "d"]) + "].join(',')"
+        o = {"src": "const probe_d%d = %s;\nfunction main() { return 'acc=1'; }\nprobe_d%d + '#' + main()" % (i, probe, i), "mode": "steps" if i % 4 < 2 else "eval"}
+        cases.append((v, o, names + ["shown", "got", "d"], True))
     # corpus: top-level generator.throw from program code, in both entry points
     for mode in ("eval", "steps"):
         v = {"src": "function* g(secret: number) { let local = 1; yield local + secret; yield 2; }\nconst it = g(5); it.next();\nit.throw(new Error('boom'));", "mode": mode, "trace": True, "path": None}
